@@ -71,18 +71,39 @@ def run(ck, rng, tier):
             X, s = gen_separated(rng, n, m, 1.0)
             X = X + 1.0000005e8
             ck.count("columns just above the missing-value code")
-        elif c == 7:
+        elif c == 10:
+            # a steep spectrum (singular values 1, 0.1, ..., 1e-7) and a first loading with one tiny but non-zero entry
+            # (9e-7), seven components: every rank-one term has to be removed in full
+            n, m, scaling, mag, nproc = 24, 8, 0, 1.0, 1
+            v0 = np.array([rng.gauss(0, 1) for _ in range(m)]); v0[3] = 0.0; v0 = v0 / np.linalg.norm(v0) * math.sqrt(1 - 9e-7 ** 2); v0[3] = 9e-7
+            Vb, _ = np.linalg.qr(np.column_stack([v0] + [np.array([rng.gauss(0, 1) for _ in range(m)]) for _ in range(m - 1)]))
+            Vb = Vb * np.sign(Vb[3, 0] if Vb[3, 0] != 0 else 1.0)
+            U_ = np.array([[rng.gauss(0, 1) for _ in range(m)] for _ in range(n)]); U_ = U_ - U_.mean(axis=0)
+            Qb, _ = np.linalg.qr(U_)
+            s = np.array([10.0 ** -k for k in range(m)])
+            X = (Qb * s) @ Vb.T + np.array([0.5 + 0.37 * k for k in range(m)])
+            ck.count("steep spectrum with a tiny loading entry")
+        elif c == 9:
+            # unscaled data in units of 1e100 (squares of the scores are still finite doubles)
+            scaling, mag = 0, 1e100
+            X, s = gen_separated(rng, n, m, 1.0)
+            X, s = X * 1e100, s * 1e100
+            ck.count("units of 1e100")
+        elif c in (7, 8):
             # exactly uncorrelated variables of which the LAST has the largest variance: the leading component is that
             # variable itself, every other column is orthogonal to it
             scaling, mag, nproc = 0, 1.0, 1
+            n = max(n, m + 3)
             Q_, _ = np.linalg.qr(np.array([[rng.gauss(0, 1) for _ in range(m)] for _ in range(n)]) - 0.0)
             Q_ = Q_ - Q_.mean(axis=0)
             Q_, _ = np.linalg.qr(Q_)
             s = np.array([2.0 ** k for k in range(m)])
+            if c == 8 and m >= 3:      # ... or one in the middle dominant, followed by columns that still beat the first one
+                s = np.array([2.0, 2.0 ** (m + 1)] + [2.0 ** (m - k) for k in range(m - 2)])
             X = Q_ * s
-            s = s[::-1]
-            ck.count("uncorrelated variables, last one dominant")
-        npc = rng.randint(1, min(3, len(s)))
+            s = np.sort(s)[::-1]
+            ck.count("uncorrelated variables, last / a middle one dominant")
+        npc = rng.randint(1, min(3, len(s))) if c != 10 else 7
         # the property presumes rank >= number of components AFTER preprocessing (a column whose scale
         # falls inside the zero guard is dropped by the preprocessing; centring costs one rank)
         E0_ = preprocess(X, scaling)
@@ -149,7 +170,7 @@ def run(ck, rng, tier):
             for k in range(npc):
                 if k + 1 < len(w) and w[k + 1] / w[k] > 0.81 + 1e-9:
                     break
-                if w[k] <= 1e-12 * tr:
+                if w[k] <= 1e-14 * tr:
                     break
                 share = 100 * w[k] / tr
                 cosang = abs(float(P[:, k] @ V[:, k]))
